@@ -41,9 +41,9 @@ func paramSets() []paramSet {
 func main() {
 	out, tier, seed, _ := Args()
 	rng := rand.New(rand.NewSource(seed))
-	n, depth, per := 1200, 4, 150
+	n, depth, per := 4000, 4, 250
 	if tier == "thorough" {
-		n, depth, per = 24000, 6, 400
+		n, depth, per = 40000, 6, 400
 	}
 	m := NewMeta("C02", tier, seed)
 	m.Rule = "typed-ish random generator over the core grammar (literals, arithmetic, comparison, logical, ternary, range, IN, quantifiers, member access with optional chaining, error suppression, LET, parameters, instrumented calls, FOR with FILTER/SORT/LIMIT/COLLECT/DISTINCT, sub-queries, nesting), printed with minimal parentheses; a case is non-trivial when the program contains at least one operator, call or clause; distinct = distinct (query text, parameter set)"
